@@ -147,6 +147,12 @@ func serverType(genpkg string, svc *expr.HTTPServiceExpr, _ map[string]struct{})
 
 	// body attribute types
 	for _, tdata := range data.ServerBodyAttributeTypes {
+		if generated := data.ServerTypeNames[tdata.Name]; generated {
+			// The type is also the response body type of a view (a result
+			// type rendered by one of its views using another of its
+			// views): it is already declared.
+			continue
+		}
 		if tdata.Def != "" {
 			sections = append(sections, &codegen.SectionTemplate{
 				Name:   "server-body-attributes",
